@@ -64,7 +64,7 @@ SCENE_PROFILE = {
 }
 
 
-def make_scene(rng, meshes=True):
+def make_scene(rng, meshes=True, lopsided=True):
     """A generated scene: description lines (mjbuild format) + trailer lines (materials, box meshes)."""
     prof = dict(SCENE_PROFILE)
     prof["nbody"] = rng.choice(((1, 3), (2, 6), (4, 9)))
@@ -120,6 +120,26 @@ def make_scene(rng, meshes=True):
         extra.append("set %d quat %s" % (hmax, " ".join(repr(x) for x in unit_quat(rng))))
         if rng.random() < 0.5:
             extra.append("set %d group %d" % (hmax, rng.choice((0, 1, 2, 3, 4, 5, 6, 9, -2))))
+    # lopsided bodies: a long light geom far from the body's centre of mass (the body-level bounding volume is
+    # then far off-centre in the inertial frame)
+    moving = [l.split()[1] for l in lines if l.startswith("body ")]
+    if lopsided and moving and rng.random() < 0.6:
+        for bh in rng.sample(moving, min(len(moving), rng.choice((1, 2)))):
+            hmax += 1
+            gt = rng.choice((CAPSULE, BOX, CYLINDER))
+            ln = rng.uniform(0.3, 0.9)
+            extra.append("geom %d %s" % (hmax, bh))
+            extra.append("name %d lg%d" % (hmax, hmax))
+            extra.append("set %d type %d" % (hmax, gt))
+            if gt == BOX:
+                extra.append("set %d size 0.02 0.03 %r" % (hmax, ln))
+            else:
+                extra.append("set %d size 0.02 %r" % (hmax, ln))
+            d = unit_vec(rng)
+            extra.append("set %d pos %r %r %r" % (hmax, d[0] * ln, d[1] * ln, d[2] * ln))
+            extra.append("set %d alt.type %d" % (hmax, E("mjORIENTATION_ZAXIS")))
+            extra.append("set %d alt.zaxis %r %r %r" % (hmax, d[0], d[1], d[2]))
+            extra.append("set %d density 5" % hmax)
     if meshes and rng.random() < 0.5:
         bodies = [l.split()[1] for l in lines if l.startswith("body ")] + ["0"]
         for k in range(rng.choice((1, 2))):
